@@ -279,10 +279,18 @@ func (b *simBot) openMsg() *bgp.BGPMessage {
 // connect opens a new transport connection to the server's passive side (what Serve does for an
 // accepted connection). The previous connection, if any, is abandoned (closed).
 func (b *simBot) connect() {
+	srv := b.attach(179, 40000+b.idx)
+	b.w.must(b.w.s.mgmtOperation(func() error { b.w.s.passConnToPeer(srv); return nil }, false))
+}
+
+// attach gives the bot a fresh connection (closing the previous one) and returns the daemon's end
+// without handing it to the daemon (connect does that for inbound connections; a dial seam returns
+// it from the daemon's own dial for outbound ones).
+func (b *simBot) attach(serverPort, botPort int) *simConn {
 	b.disconnect()
 	w := b.w
 	w.settle()
-	srv, bot := simPipe(w.serverIP, b.spec.IP, 179, 40000+b.idx)
+	srv, bot := simPipe(w.serverIP, b.spec.IP, serverPort, botPort)
 	b.mu.Lock()
 	b.gen++
 	gen := b.gen
@@ -299,7 +307,7 @@ func (b *simBot) connect() {
 	b.mu.Unlock()
 	go b.reader(bot, gen)
 	go b.writer(bot, q)
-	w.must(w.s.mgmtOperation(func() error { w.s.passConnToPeer(srv); return nil }, false))
+	return srv
 }
 
 func (b *simBot) disconnect() {
